@@ -91,6 +91,25 @@ def check_element(res, kind, name, actual, children, hook_failed=False, cleanup_
         res.nontrivial = True
 
 
+def check_reportable(res, features):
+    """Every status in the model after a run is a reportable one (never 'executing' / 'unknown')."""
+    from behave.model import Rule, ScenarioOutline
+    def visit(kind, elem):
+        name = elem.status.name
+        if name in ("executing", "unknown"):
+            res.fail("C03.%s.not-reportable" % kind, "%s %r is left with status %s after the run" % (kind, elem.name, name))
+    for f in features:
+        visit("feature", f)
+        for x in f.run_items:
+            if isinstance(x, Rule):
+                visit("rule", x)
+        for s in f.walk_scenarios(with_outlines=True):
+            visit("outline" if isinstance(s, ScenarioOutline) else "scenario", s)
+            if not isinstance(s, ScenarioOutline):
+                for step in s.all_steps:
+                    visit("step", step)
+
+
 def check_model(res, features, ref=None):
     from behave.model import Rule, ScenarioOutline
     cleanup_failed = set(ref.cleanup_error_elems) if ref is not None else set()
@@ -172,6 +191,24 @@ def check(case):
                    for feat, inst in runcheck.instances(prog)):
                 res.label("aborted-without-failure:deselected-never-reached")
         res.label("run")
+    elif kind == "interrupted":
+        # Ctrl-C arrives while a HOOK runs (a step catches its own interrupt): the run is cut short; what the model
+        # then says follows the table all the same, and every status is one of the reportable ones
+        prog = runcheck.resolve_faults(case["program"])
+        run = run_program(prog)
+        if isinstance(run.escaped, KeyboardInterrupt):
+            res.label("interrupt-in-hook:escaped")      # before_all / after_all: the interrupt leaves run() itself
+            return res
+        if run.escaped is not None:
+            res.fail("C03.escape", "exception escaped run(): %r" % (run.escaped,))
+            return res
+        check_reportable(res, run.features)
+        check_model(res, run.features, None)
+        at = [h[0] for i, h in enumerate(run.hooks) if [i, "KeyboardInterrupt"] in [list(x) for x in prog.get("hook_faults") or []]]
+        res.label("interrupt-in-hook")
+        for name in at:
+            res.label("interrupt-in-hook:" + name)
+        res.nontrivial = bool(at)
     elif kind == "enum-status":
         check_status_enum(res)
     elif kind == "synthetic":
@@ -537,6 +574,22 @@ def strip_skip(prog, also=("interrupt",)):
     return prog
 
 
+@st.composite
+def late_skip_program(draw):
+    prog = draw(gen.program_st(faults=False, max_features=2, max_items=2, min_rules=2, max_rules=3,
+                               outcomes=["pass", "pass", "fail", "raise", "undefined", "skip"],
+                               cfg=gen.cfg_st(flags=(), p_tags=0.3)))
+    prog["hook_faults"] = [[draw(st.integers(0, 10000)), "skip_feature"]]
+    return {"kind": "run", "program": prog}
+
+
+@st.composite
+def interrupted_program(draw):
+    prog = draw(gen.program_st(faults=False, max_features=2, cfg=gen.cfg_st(flags=("stop",), p_tags=0.3)))
+    prog["hook_faults"] = [[draw(st.integers(0, 10000)), "KeyboardInterrupt"]]
+    return {"kind": "interrupted", "program": prog}
+
+
 def explore(rec):
     quick = rec.tier == "quick"
     rec.enum("status-enum", [{"kind": "enum-status"}])
@@ -545,6 +598,10 @@ def explore(rec):
     # runs that are cut short without any failure (context.abort() in a passing step or in a hook) over programs with
     # deselected scenarios: what is never reached stays untested, whatever the selection says about it
     rec.hyp("aborted-runs", aborted_program(), 1500 if quick else 40000)
+    # a hook gives up the rest of a partly executed feature (context.feature.skip() in after_scenario) that consists of
+    # several rules: what has run keeps its status, on every level
+    rec.hyp("late-feature-skip", late_skip_program(), 800 if quick else 20000)
+    rec.hyp("interrupted-in-hook", interrupted_program(), 1000 if quick else 25000)
     rec.hyp("rerun-with-reset", act_program(with_skip=True).map(
         lambda p: {"kind": "rerun", "program": p, "runs": 3, "reset": True}), 700 if quick else 20000)
     # without reset every scenario must be visited again by the later run: no --stop, no interrupt
@@ -557,7 +614,8 @@ def required_labels(tier):
     return ["status-enum", "synthetic:scenario", "synthetic:outline", "synthetic:feature", "synthetic:rule",
             "run", "cut-short", "hook-fault", "raising-cleanup", "dry-run", "rerun:reset", "rerun:no-reset",
             "autoretry", "autoretry:outline-as-a-whole", "autoretry:hook-raises-in-every-attempt",
-            "aborted-without-failure:deselected-never-reached"]
+            "aborted-without-failure:deselected-never-reached", "interrupt-in-hook:before_scenario",
+            "interrupt-in-hook:after_feature", "interrupt-in-hook:after_step"]
 
 
 def _f2_scenario_skipped(case, detail, info):
